@@ -88,6 +88,16 @@ def operations():
     ops["eq wrapped"] = lambda x, y: [A.Declare(V("r"), A.Bin("==", A.obj(("k", x())), y())), A.pr(S("done"))]
     ops["concat self"] = lambda x, y: [A.Declare(V("t"), x()), A.OpAssign("+", V("t"), V("t")), A.OpAssign("+", V("t"), y()), A.pr(S("done"))]
     ops["call with both"] = lambda x, y: [A.FuncStmt("g", [V("p"), V("q")], False, [A.Assign(A.Index(V("p"), I(0)), V("q")), A.Return(A.Bin("===", V("p"), V("q")))]), A.pr(A.call("g", x(), y()))]
+    ops["nested same call"] = lambda x, y: [A.FuncStmt("g", [V("p"), V("q")], False, [A.Return(V("p"))]), A.pr(A.call("g", A.call("g", x(), y()), A.call("g", y(), x())))]
+    ops["recursive fn as own arg"] = lambda x, y: [A.FuncStmt("g", [V("f"), V("n")], False, [A.If([(A.Bin(">", V("n"), I(0)), [A.Return(A.call("f", V("f"), A.Bin("-", V("n"), I(1))))])], None), A.Return(x())]),
+                                                   A.Declare(V("r"), A.call("g", V("g"), I(3))), A.pr(S("done"))]
+    ops["key from own property"] = lambda x, y: [A.Assign(A.Index(x(), A.Index(x(), S("k"))), y()), A.pr(S("done"))]
+    ops["key opassign from own property"] = lambda x, y: [A.OpAssign("+", A.Index(x(), A.Bin("+", S("k"), A.Call(A.Prop(A.Index(x(), S("k")), "type", True), []))), I(1)), A.pr(S("done"))]
+    ops["index from own element"] = lambda x, y: [A.Assign(A.Index(x(), A.Index(x(), I(0))), y()), A.pr(S("done"))]
+    ops["print no args via empty spread"] = lambda x, y: [A.ExprStmt(A.Call(V("print"), [(A.lst(), True)]))]
+    ops["print two args via spread"] = lambda x, y: [A.ExprStmt(A.Call(V("print"), [(A.lst(x(), y()), True)]))]
+    ops["type fn with args"] = lambda x, y: [A.ExprStmt(A.Call(A.Prop(x(), "type", True), [(y(), False)]))]
+    ops["len with spread args"] = lambda x, y: [A.ExprStmt(A.Call(A.Prop(S("é"), "len", True), [(A.lst(x()), True)]))]
     ops["interp"] = lambda x, y: [A.pr(A.IStr(["é", A.Call(A.Prop(x(), "type", True), []), "✓", A.Call(A.Prop(y(), "type", True), [])]))]
     return ops
 
